@@ -15,7 +15,8 @@ Also judged: a method-only definition never runs from a function-form call and
 vice versa (and the error is "unknown function/method" when no definition of
 that name has the other kind); a skipped slot for a parameter without default
 never runs the definition; a skipped slot inside *args is not a spelling of
-anything and must be rejected.
+anything and must be rejected; the keyword name a parameter is accepted under
+is the one its docstring documents (else the documented name must work).
 """
 import collections
 import datetime
@@ -406,32 +407,77 @@ def check_slots(res, rec, args):
                          'expected a no-matching error' % (text, rec.ident, novalue, out))
 
 
+def documented(rec):
+    """Parameter names the docstring promises: ([:receiverArg/:arg names in order, without [args]/{kwargs}],
+    words of the :signature: line)."""
+    doc = rec.fd.doc or ''
+    names = [n.strip() for n in re.findall(r':(?:arg|receiverArg)\s+([^:]+):', doc)]
+    sig = re.search(r':signature:(.*?)\n\s*:', doc, re.S)
+    return [n for n in names if n[:1] not in '[{'], set(re.findall(r'\w+', sig.group(1))) if sig else set()
+
+
+def check_documented_keywords(res, rec, args):
+    """The keyword name of a parameter is the one its documentation gives (which, absent an explicit alias,
+    is the convention translation of the python name): where the accepted name is not documented, the
+    documented name must work - `f(.., documented => v, ..)` is one more spelling of the call."""
+    if rec.syntax != 'name' or rec.no_kwargs or not rec.params or not (rec.fd.doc or '').strip():
+        return
+    names, sigwords = documented(rec)
+    if len(names) != len(rec.params):
+        res.out_of_domain += 1
+        res.outcomes['ood: documentation lists other parameters'] += 1
+        return
+    n = len(rec.params)
+    form = 'fn' if rec.fd.is_function else 'method'
+    texts = [arg_text(v, 'p%d' % i, 'var') for i, v in enumerate(args.pos)]
+    ref_text = C.call_text(rec, form, texts, [])
+    for i in range(1 if form == 'method' else 0, n):
+        p = rec.params[i]
+        res.transitions += 1
+        if p.alias == names[i] or p.alias in sigwords:
+            res.outcomes['keyword name documented'] += 1
+            continue
+        text = C.call_text(rec, form, texts[:i], [(names[i], texts[i])] +
+                           [(rec.params[j].alias, texts[j]) for j in range(i + 1, n)])
+        case = dict(case_of(rec, args, (), 'var'), kind='group', a=ref_text, fa=form, b=text, fb=form)
+        res.case((rec.ident, 'documented-keyword', text))
+        ref = observe(rec, ref_text, variables(args, 'var'))
+        out = observe(rec, text, variables(args, 'var'))
+        res.evaluations += 2
+        res.nontrivial += 1
+        res.outcomes['keyword name undocumented: documented name %s' %
+                     ('works' if out[:2] == ref[:2] else 'rejected')] += 1
+        if out[:2] != ref[:2]:
+            res.fail('documented-keyword-rejected def=%s param=%s' % (rec.ident, p.name), case,
+                     'documented as %r, accepted as %r: %s -> %r but %s -> %r'
+                     % (names[i], p.alias, ref_text, ref[0], text, out[0]))
+
+
 def job_units(tier, units):
-    """units: [(definition ident, [indices into its tuple list])]; the unit holding tuple 0 also runs
-    the kind and slot checks of that definition."""
+    """units: [(definition ident, tuple index, part, nparts)]: the omitted sets number part, part+nparts, ...
+    of that tuple; the unit (tuple 0, part 0) also runs the kind and slot checks of the definition."""
     res = Result()
     s = setup()
-    for ident, indices in units:
+    for ident, ti, part, nparts in units:
         rec = s['by_ident'][ident]
         tuples = tuples_of(rec, tier)
-        for ti in indices:
-            args = tuples[ti]
-            for argform in (('var', 'text') if tier == 'thorough' else ('var',)):
-                if argform == 'text' and all(v.make is None or v.text is None for v in args.pos + args.var):
-                    continue
-                for omitted in omitted_sets(rec, tier, base=(ti == 0 and argform == 'var')):
-                    check_group(res, rec, args, omitted, argform, ti)
-        if 0 in indices:
+        args = tuples[ti]
+        for argform in (('var', 'text') if tier == 'thorough' else ('var',)):
+            if argform == 'text' and all(v.make is None or v.text is None for v in args.pos + args.var):
+                continue
+            for omitted in omitted_sets(rec, tier, base=(ti == 0 and argform == 'var'))[part::nparts]:
+                check_group(res, rec, args, omitted, argform, ti)
+        if ti == 0 and part == 0:
             for args in tuples[:2]:
                 check_kinds(res, rec, args)
                 check_slots(res, rec, args)
+            check_documented_keywords(res, rec, tuples[0])
     return res
 
 
 def unit_cost(rec, tier, ti):
     n = len(rec.params)
-    sets = sum(1 for _ in omitted_sets(rec, tier, base=(ti == 0)))
-    return sets * (n + 1) * (2 + n) * (2 if tier == 'thorough' else 1) + 20
+    return len(omitted_sets(rec, tier, base=(ti == 0))) * (n + 1) * (2 + n) * (2 if tier == 'thorough' else 1) + 20
 
 
 def jobs(tier, seed):
@@ -439,13 +485,15 @@ def jobs(tier, seed):
     units = []
     for rec in C.definitions():
         for ti in range(len(tuples_of(rec, tier))):
-            units.append((unit_cost(rec, tier, ti), rec.ident, ti))
-    bins = [[0, collections.OrderedDict()] for _ in range(nbins)]
-    for c, ident, ti in sorted(units, key=lambda u: (-u[0], u[1], u[2])):
+            cost = unit_cost(rec, tier, ti)
+            nparts = 1 + cost // 40000
+            units.extend((cost // nparts, rec.ident, ti, part, nparts) for part in range(nparts))
+    bins = [[0, []] for _ in range(nbins)]
+    for u in sorted(units, key=lambda u: (-u[0],) + u[1:]):
         b = min(bins, key=lambda x: x[0])
-        b[0] += c
-        b[1].setdefault(ident, []).append(ti)
-    return [('units-%02d' % i, 'job_units', (tier, list(b[1].items()))) for i, b in enumerate(bins) if b[1]]
+        b[0] += u[0]
+        b[1].append(u[1:])
+    return [('units-%02d' % i, 'job_units', (tier, b[1])) for i, b in enumerate(bins) if b[1]]
 
 
 def finish(total, tier):
